@@ -1,17 +1,28 @@
 #!/bin/bash
-# tools/try_seed.sh <dir with patchN.diff/demoN.py> <N> <PROP> [tier]
+# tools/try_seed.sh <dir with patchN.diff/demoN.py> <N> <PROP...> [tier]
 # Applies a seeded change to /repo, confirms tests pass and the demo fails, runs the check, undoes the change.
+# With SEED_SCRATCH=1 the change is applied to a scratch worktree (/tmp/seedrepo) and the checks are pointed at it
+# with VERIF_REPO - for use while something else (a background thorough run) is reading /repo.
 d=$1; n=$2; prop=$3; tier=${4:-quick}
-cd /repo || exit 2
+R=/repo
+if [ -n "$SEED_SCRATCH" ]; then
+  R=/tmp/seedrepo
+  git -C /repo worktree remove --force $R 2>/dev/null; rm -rf $R
+  git -C /repo worktree add -q --detach $R HEAD || exit 2
+  export VERIF_REPO=$R
+  trap 'git -C /repo worktree remove --force /tmp/seedrepo; git -C /repo worktree prune' EXIT
+else
+  trap 'git -C /repo checkout -- . ; git -C /repo clean -fdq sourcer 2>/dev/null' EXIT
+fi
+cd $R || exit 2
 git diff --quiet || { echo "repo not clean"; exit 2; }
 git apply "$d/patch$n.diff" || { echo "patch does not apply"; exit 2; }
-trap 'git -C /repo checkout -- . ; git -C /repo clean -fdq sourcer 2>/dev/null' EXIT
-t=$(cd /repo && timeout 600 /venv/bin/python -m pytest -q -p no:cacheprovider 2>&1 | tail -1)
+t=$(cd $R && timeout 600 /venv/bin/python -m pytest -q -p no:cacheprovider 2>&1 | tail -1)
 echo "tests: $t"
-(cd /tmp && PYTHONPATH=/repo timeout 120 /venv/bin/python "$d/demo$n.py" >/dev/null 2>&1); echo "demo exit with patch: $?"
+(cd /tmp && PYTHONPATH=$R timeout 120 /venv/bin/python "$d/demo$n.py" >/dev/null 2>&1); echo "demo exit with patch: $?"
 cd /verif
 for p in $prop; do
   out=$(timeout 1500 ./check $p $tier 2>&1); rc=$?
   echo "check $p $tier: exit $rc; $(echo "$out" | grep -c '^VIOLATION') VIOLATION lines"
-  echo "$out" | grep -v "^VIOLATION" | tail -4 | cut -c1-200
+  echo "$out" | grep -v "^VIOLATION" | grep -v "^KNOWN" | tail -4 | cut -c1-200
 done
